@@ -292,6 +292,10 @@ def mps_fp(psi):
         B = psi._B[i]
         parts.append(h(np.ascontiguousarray(base.dense(B)).tobytes()) + repr(B._labels) + repr([int(x) for x in B.qtotal])
                      + repr([leg_fp(l) for l in B.legs]))
+    # the object as a whole: number of stored tensors / singular values (not only the first L), boundary unitaries, bc
+    parts.append(repr((len(psi._B), len(psi._S), len(psi.form), len(psi.sites), psi.bc)))
+    parts.append(repr([None if U is None else h(np.ascontiguousarray(base.dense(U)).tobytes()) + repr([leg_fp(l) for l in U.legs])
+                       for U in psi.segment_boundaries]))
     for S in psi._S:
         parts.append('None' if S is None else h(np.ascontiguousarray(np.asarray(S)).tobytes()))
     parts.append(repr([tuple(f) if f is not None else None for f in psi.form]))
@@ -540,6 +544,9 @@ def main():
     if any(kc[0] == 'mpshist' for kc in payload['cases']):
         import c03_mpshist_impl             # MPS-level histories (stream mps-history, Model/StoreMps.v)
         fs['mpshist'] = c03_mpshist_impl.run_mps_history
+    if any(kc[0] == 'mpsobj' for kc in payload['cases']):
+        import c03_mpsobj_impl              # whole-object fingerprints around every public MPS call (stream mps-object)
+        fs['mpsobj'] = c03_mpsobj_impl.run_mps_object
     res = base.isolated_all(lambda kc: fs[kc[0]](kc[1]), payload['cases'], batch=20)
     info = {'have_cython': bool(optimization.have_cython_functions),
             'npc_file': os.path.realpath(npc.__file__)}
